@@ -229,6 +229,14 @@ func main() {
 					rep.Functions = append(rep.Functions, "audit atomic "+ar.a.TypeName+"."+ar.a.Field+" (every function of "+ar.pkg.Pkg.Name()+")")
 				}
 			}
+			mo, merrs := p.runMonitorAudits(*prop)
+			obls = append(obls, mo...)
+			rep.Errors = append(rep.Errors, merrs...)
+			for _, mr := range p.monitors {
+				if *prop == "" || contains(mr.m.Props, *prop) {
+					rep.Functions = append(rep.Functions, "lockset audit of monitor "+mr.m.TypeName+"."+mr.m.MuField+" (every function of "+mr.pkg.Pkg.Name()+")")
+				}
+			}
 		}
 		for _, lr := range p.lemmas {
 			if *prop != "" && !contains(lr.l.Props, *prop) {
